@@ -79,10 +79,17 @@ pub fn run_fidelity(ex: &mut Executor, spec: &ExecSpec, label: &str) -> TrialOut
             return out;
         }
     };
+    if spec.argv.iter().any(|a| a.contains("@INSTATS@")) {
+        // needs a statistics file produced by another run: not a single-command comparison
+        out.nontrivial = false;
+        return out;
+    }
     let mut canon = spec.clone();
     canon.policy = crate::exec::PolicySpec::Canonical;
     canon.cap_limit = None;
     canon.io = Default::default();
+    // (the real process below starts in an empty directory)
+    canon.stale_outputs = None;
     let r = ex.exec(&canon);
     out.key = case_key(&spec.input, &r);
     if oracle::has_fatal(&r.stderr) {
